@@ -172,6 +172,13 @@ def operands(fam, tier):
     # unary and method forms
     for d, v in lv0[:len(A)]:
         lv1.append((("neg", d), -v))
+    # plain python lists of operators (the library accepts them wherever it accepts an OpSum: Op.__rmul__/__radd__ ... take a list)
+    from renormalizer.model import OpSum
+    plain = []
+    for d, v in lv1:
+        if isinstance(v, OpSum) and len(v) >= 2 and d[0] in ("+", "-"):
+            plain.append((("plain-list", d), list(v)))
+    lv1.extend(plain[::3])
     return lv0, lv1
 
 
